@@ -234,6 +234,45 @@ func destroyDuringStalledStore(ctx context.Context, c hooks, cfg *config.Config,
 	}
 }
 
+// set by main for the scenario that is running (for scenarios that build a cache of their own)
+var curBackend, curDir string
+var curShards int
+
+// storeAfterContextCancel: the context the cache was constructed with is cancelled (shutdown has begun), Destroy has
+// not been called yet; stores into the FULL cache still return (stored or refused), and so do reads on the same shard.
+func storeAfterContextCancel(_ context.Context, _ hooks, _ *config.Config, r *emit.Rand) error {
+	cfg := config.NewDefault()
+	ctx, cancel := context.WithCancel(context.Background())
+	c := newCache(curBackend, cfg, 1000, time.Hour, curShards, ctx, curDir+"-own")
+	defer os.RemoveAll(curDir + "-own")
+	defer c.Destroy()
+	for i := 0; i < 5; i++ { // 5 x 200 bytes against a limit of 1000: full
+		if e, err := c.Cache(cache.FromString(fmt.Sprintf("full-%d", i)), body(200, 'f'), time.Now().Add(time.Hour), meta{}); err == nil && e.Data != nil {
+			e.Data.Close()
+		}
+	}
+	cancel()
+	time.Sleep(30 * time.Millisecond) // whatever follows the context has noticed by now
+	done := make(chan struct{})
+	go func() {
+		for i := 0; i < 3; i++ {
+			if e, err := c.Cache(cache.FromString(fmt.Sprintf("after-%d", i)), body(200, 'a'), time.Now().Add(time.Hour), meta{}); err == nil && e.Data != nil {
+				e.Data.Close()
+			}
+			if e, err := c.Get(cache.FromString("full-4")); err == nil && e.Data != nil {
+				e.Data.Close()
+			}
+		}
+		close(done)
+	}()
+	select {
+	case <-done:
+		return nil
+	case <-time.After(4 * time.Second):
+		return fmt.Errorf("a store into a full cache (or a read after it) did not return within 4 s after the cache's construction context was cancelled (Destroy not yet called)")
+	}
+}
+
 func configChangeOverLimit(ctx context.Context, c hooks, cfg *config.Config, r *emit.Rand) error {
 	for i := 0; i < 3; i++ {
 		// limit 1000: 600 (under), 1200 (over, the check happens before the store), third store evicts
@@ -390,7 +429,8 @@ func main() {
 					scenario{Name: "destroy-during-cycle", Backend: b, Shards: n, run: destroyDuringCycle, timeout: 10 * time.Second},
 					scenario{Name: "interval-burst", Backend: b, Shards: n, run: intervalBurst, timeout: 15 * time.Second},
 					scenario{Name: "config-change-over-limit", Backend: b, Shards: n, run: configChangeOverLimit, timeout: 10 * time.Second},
-					scenario{Name: "destroy-during-stalled-store", Backend: b, Shards: n, run: destroyDuringStalledStore, timeout: 10 * time.Second})
+					scenario{Name: "destroy-during-stalled-store", Backend: b, Shards: n, run: destroyDuringStalledStore, timeout: 10 * time.Second},
+					scenario{Name: "store-after-context-cancel", Backend: b, Shards: n, run: storeAfterContextCancel, timeout: 10 * time.Second})
 			}
 		}
 	}
@@ -411,6 +451,7 @@ func main() {
 		cfg := config.NewDefault()
 		ctx, cancel := context.WithCancel(context.Background())
 		c := newCache(sc.Backend, cfg, 1000, time.Millisecond, sc.Shards, ctx, dir)
+		curBackend, curDir, curShards = sc.Backend, dir, sc.Shards
 		done := make(chan error, 1)
 		go func() {
 			defer func() {
@@ -458,7 +499,7 @@ func main() {
 	dist["unparseable-range-416-retry"]++
 	out := map[string]any{
 		"harness": "sync", "seed": *flagSeed, "tier": *flagTier, "total": executed, "distinct": executed, "distinct_nontrivial": executed,
-		"rule":         "forced concurrency scenarios (store-triggered eviction with victims on the caller's shard; 8 workers x 250 mixed ops on colliding keys with 1 ms janitor ticks and limit/interval/budget change events; Destroy during a cycle; Destroy while a store waits for a stalled upstream; back-to-back interval changes) + request-level scenarios (tunnel to a host whose cached certificate has run out, then another host; a request with an unparseable Range answered 416 under retry_on_range_416, then a plain GET; the log file becoming unwritable under the real logging set-up) x backends {memory,file} x shards {1,2,3,64}; every scenario under a watchdog; non-trivial = all",
+		"rule":         "forced concurrency scenarios (store-triggered eviction with victims on the caller's shard; 8 workers x 250 mixed ops on colliding keys with 1 ms janitor ticks and limit/interval/budget change events; Destroy during a cycle; Destroy while a store waits for a stalled upstream; stores into a full cache after the construction context was cancelled and before Destroy; back-to-back interval changes) + request-level scenarios (tunnel to a host whose cached certificate has run out, then another host; a request with an unparseable Range answered 416 under retry_on_range_416, then a plain GET; the log file becoming unwritable under the real logging set-up) x backends {memory,file} x shards {1,2,3,64}; every scenario under a watchdog; non-trivial = all",
 		"distribution": map[string]any{"scenario": dist},
 		"samples":      []any{map[string]any{"scenario": "store-evict-same-shard", "backend": "memory", "shards": 1}},
 		"files":        []string{},
